@@ -10,6 +10,7 @@ package rules
 //   scannerNotReconfigured bufio.Scanner limits are not lowered by repo code (R07o; seed C07-21)
 
 import (
+	"fmt"
 	"go/constant"
 	"go/token"
 	"go/types"
@@ -642,7 +643,91 @@ func positioningByLineCounter(c *core.Ctx, rule string, pkgs []string) {
 	c.Floor(rule, 1, "positioning loops of the csv reader")
 }
 
+// ---------------------------------------------------------------- evaluator results are not pooled
+
+// evaluatorResultsNotPooled: ParseNode stores every evaluator result in the per-record cache and hands the same instance to
+// every declaration with the same hash on the same node. A result that comes out of a sync.Pool is therefore (a) aliased
+// by the cache while the pool may hand it out again and (b) put back once per alias (seed C15-18: pooled object maps, a
+// double Put, two later objects sharing one map). In package transform no returned value derives from (*sync.Pool).Get.
+func evaluatorResultsNotPooled(c *core.Ctx, rule string) {
+	c.SSA()
+	n := 0
+	var fromPool func(v ssa.Value, seen map[ssa.Value]bool) token.Pos
+	fromPool = func(v ssa.Value, seen map[ssa.Value]bool) token.Pos {
+		if v == nil || seen[v] {
+			return token.NoPos
+		}
+		seen[v] = true
+		switch x := v.(type) {
+		case *ssa.Call:
+			if r7calleeName(x) == "sync.Pool.Get" {
+				return core.InstrPos(x)
+			}
+		case *ssa.TypeAssert:
+			return fromPool(x.X, seen)
+		case *ssa.MakeInterface:
+			return fromPool(x.X, seen)
+		case *ssa.ChangeInterface:
+			return fromPool(x.X, seen)
+		case *ssa.ChangeType:
+			return fromPool(x.X, seen)
+		case *ssa.Extract:
+			return fromPool(x.Tuple, seen)
+		case *ssa.Phi:
+			for _, e := range x.Edges {
+				if p := fromPool(e, seen); p.IsValid() {
+					return p
+				}
+			}
+		}
+		return token.NoPos
+	}
+	for _, f := range c.RepoFunctions() {
+		if !inPkgs(core.FuncPkg(f), []string{"extensions/omniv21/transform"}) {
+			continue
+		}
+		for _, b := range f.Blocks {
+			if len(b.Instrs) == 0 {
+				continue
+			}
+			ret, ok := b.Instrs[len(b.Instrs)-1].(*ssa.Return)
+			if !ok {
+				continue
+			}
+			for _, r := range ret.Results {
+				n++
+				if p := fromPool(r, map[ssa.Value]bool{}); p.IsValid() {
+					c.Bad(rule, core.FuncKey(f)+" returns a pooled value", p, "a value taken from a sync.Pool is returned on the evaluation path: ParseNode caches results and serves one instance to every equal declaration on the node, so the pooled object is aliased (and recycled once per alias): later records share a container")
+				}
+			}
+		}
+	}
+	c.OK(rule, "results of package transform are not pooled", 0, fmt.Sprintf("%d returned values examined", n))
+}
+
 func init() {
+	for _, pr := range [][2]string{{"C13", "R13l"}, {"C15", "R15s"}} {
+		pr := pr
+		wrapRun(pr[0], func(c *core.Ctx) {
+			if c.CountRule(pr[1]) == 0 {
+				evaluatorResultsNotPooled(c, pr[1])
+			}
+		})
+		addDoc(pr[0], pr[1]+" no value returned by a function of package transform derives from (*sync.Pool).Get (the per-record cache aliases every result).")
+	}
+	control(Control{ID: "c15-pooled-object-maps", Prop: "C15", File: "extensions/omniv21/transform/parse.go",
+		Old: "\tobj := map[string]interface{}{}\n", New: "\tobj := (&sync.Pool{New: func() interface{} { return map[string]interface{}{} }}).Get().(map[string]interface{})\n",
+		Old2: "\t\"strconv\"\n", New2: "\t\"strconv\"\n\t\"sync\"\n",
+		Rule: "R15s", Substr: "returns a pooled value", Why: "object maps come from a process-wide pool while the per-record cache aliases them"})
+	wrapRun("C15", func(c *core.Ctx) {
+		// R15r (= C01 R01e): the bytes Read returns are not backed by pooled or reader-owned storage (seed C15-17: the
+		// marshal buffer went back to a pool; a record changed after it had been returned)
+		if c.CountRule("R15r") == 0 {
+			importRules(c, "C01", map[string]string{"R01e": "R15r"})
+			c.Floor("R15r", 1, "returned bytes are fresh")
+		}
+	})
+	addDoc("C15", "R15r (= C01 R01e) the bytes Read returns are not backed by pooled or reader-owned storage.")
 	wrapRun("C06", func(c *core.Ctx) {
 		if c.CountRule("R06r") == 0 {
 			positioningByLineCounter(c, "R06r", []string{"extensions/omniv21/fileformat/csv"})
